@@ -1,5 +1,142 @@
-"""Assumed contracts for file objects and text tokens (filled in with C19)."""
+"""Assumed contracts for text-file reading as used by verde.io.load_surfer.
+
+A Surfer ASCII grid is modelled as: line 1 (free text), four header lines whose whitespace-separated
+tokens have symbolic numeric values, and a body that numpy.loadtxt turns into a (rows, cols) float
+array. String parsing itself (str.split/strip, int()/float() of a token, loadtxt) is ASSUMED."""
+from .arr import SymArr, havoc_array, new_array
+from .core import SymNum, Unsupported, ctx, is_sym
+
+
+def _use(name):
+    ctx().used_prelude.add("io." + name)
 
 
 class SymToken:
-    pass
+    """One whitespace-separated token of a header line, with its numeric value."""
+
+    def __init__(self, value, is_int):
+        self.value, self.is_int = value, is_int
+
+    def strip(self, *a):
+        return self
+
+    def as_int(self):
+        if not self.is_int:
+            raise ValueError("invalid literal for int() with base 10")
+        return self.value
+
+    def as_float(self):
+        v = self.value
+        if isinstance(v, SymNum) and v.kind == "int":
+            import z3
+
+            return SymNum(z3.ToReal(v.t), "real")
+        return v
+
+
+class SymLine:
+    def __init__(self, tokens=None, text=None):
+        self.tokens, self.text = tokens, text
+
+    def strip(self, *a):
+        if self.text is None:
+            raise Unsupported("strip() of a numeric header line")
+        return self.text
+
+    def split(self, *a):
+        if self.tokens is None:
+            raise Unsupported("split() of the free-text line")
+        return list(self.tokens)
+
+
+class SymFile:
+    """An open text file positioned at the start of a Surfer grid."""
+
+    def __init__(self, header_lines, body, name=None):
+        self.lines = list(header_lines)
+        self.body = body
+        self.pos = 0
+        self.closed = False
+        self.name = name
+        self.body_read = False
+
+    def readline(self):
+        _use("file.readline")
+        if self.closed:
+            raise ValueError("I/O operation on closed file.")
+        if self.pos >= len(self.lines):
+            raise Unsupported("readline() past the modelled header")
+        ln = self.lines[self.pos]
+        self.pos += 1
+        return ln
+
+    def close(self):
+        self.closed = True
+
+    def __enter__(self):
+        return self
+
+    def __exit__(self, *a):
+        self.close()
+        return False
+
+
+class SymMasked(SymArr):
+    """numpy.ma masked array: reductions skip the masked cells (mask = the NaN flag of the storage)."""
+
+    def min(self, axis=None):
+        from .prelude_np import _minmax
+
+        return _minmax("ma.min", self, True, axis, skipnan=True)
+
+    def max(self, axis=None):
+        from .prelude_np import _minmax
+
+        return _minmax("ma.max", self, False, axis, skipnan=True)
+
+
+class _MA:
+    def masked_where(self, cond, a, copy=True):
+        _use("numpy.ma.masked_where")
+        snap = a.snapshot()
+        cs = cond.snapshot()
+        out = new_array(a.shape, lambda idx: snap(*idx), a.kind)
+        out.storage.nan = lambda idx: cs(*idx)
+        m = SymMasked(out.storage)
+        return m
+
+
+MA = _MA()
+
+
+def sym_loadtxt(fobj, dtype=None, **kw):
+    """numpy.loadtxt on the rest of the file: the body as a 2-D float array."""
+    _use("numpy.loadtxt")
+    if not isinstance(fobj, SymFile):
+        raise Unsupported("loadtxt of %r" % type(fobj))
+    if fobj.closed:
+        raise ValueError("I/O operation on closed file.")
+    if fobj.pos != len(fobj.lines):
+        # header not fully consumed: the remaining header lines would be parsed as data
+        raise Unsupported("loadtxt called before the five header lines were read")
+    fobj.body_read = True
+    snap = fobj.body.snapshot()
+    return new_array(fobj.body.shape, lambda idx: snap(*idx), "f")
+
+
+class OpenStub:
+    def __init__(self):
+        self.opened = []
+        self.files = {}
+
+    def register(self, path, fobj):
+        self.files[path] = fobj
+
+    def __call__(self, path, mode="r", *a, **k):
+        _use("open")
+        if path not in self.files:
+            raise FileNotFoundError(path)
+        f = self.files[path]
+        self.opened.append(f)
+        ctx().ghost.setdefault("open", []).append((path, mode, f))
+        return f
